@@ -43,6 +43,10 @@ func main() {
 
 	files, _ := filepath.Glob(filepath.Join(*dir, "ev-*."+*prop+".json"))
 	sort.Strings(files)
+	nShardFiles := len(files)
+	fuzzFiles, _ := filepath.Glob(filepath.Join(*dir, "fz-*."+*prop+".json")) // written by native fuzz workers (thorough tier)
+	sort.Strings(fuzzFiles)
+	files = append(files, fuzzFiles...)
 	hashes := map[uint64]struct{}{}
 	tot := shard{Classes: map[string]int64{}, Excluded: map[string]int64{}, Subs: map[string]int64{}, Exhaustive: map[string]bool{}, Extra: map[string]interface{}{}}
 	exhaustiveSeen := map[string]int{}
@@ -129,7 +133,8 @@ func main() {
 		"excluded_by_known_finding":    tot.Excluded,
 		"exhaustive_parts":             exh,
 		"exhaustive":                   false,
-		"shards":                       len(files),
+		"shards":                       nShardFiles,
+		"native_fuzz_workers":          len(fuzzFiles),
 		"known_findings_still_present": known,
 	}
 	for k, v := range tot.Extra {
@@ -151,8 +156,8 @@ func main() {
 		fmt.Fprintln(os.Stderr, "evmerge:", err)
 		os.Exit(2)
 	}
-	fmt.Printf("EVIDENCE property=%s evaluations=%d distinct_nontrivial=%d discarded=%d shards=%d/%d violations=%d\n", *prop, tot.Evals, len(hashes), tot.Discarded, len(files), *expectShards, len(tot.Violations))
-	if len(files) != *expectShards {
+	fmt.Printf("EVIDENCE property=%s evaluations=%d distinct_nontrivial=%d discarded=%d shards=%d/%d violations=%d\n", *prop, tot.Evals, len(hashes), tot.Discarded, nShardFiles, *expectShards, len(tot.Violations))
+	if nShardFiles != *expectShards {
 		os.Exit(3)
 	}
 }
